@@ -8,6 +8,7 @@ eps0_int) and Model/C03dd.v (dd_matrix).
 Fail-closed: anything outside the templates / the expression fragment raises Untranslatable.  Conventions of the templates:
   H_x   expression hole (bound once; translated with an explicit table of the variables it may mention)
   L_x   local-variable hole: binds a local name of the source consistently and injectively (alpha-renaming of locals)
+  W_x   any name (used only in statements that merely read the tracked objects)
   S_any as the only statement of a block: any block (used only for blocks the modelled path does not execute)
 Augmented assignments are normalised to plain ones (x += y  ==  x = x + y) in template and source before matching.
 """
@@ -63,6 +64,10 @@ def unify(t, s, env, path="body"):
         else:
             env[t.id] = s
         return
+    if isinstance(t, ast.Name) and t.id.startswith("W_"):
+        if not isinstance(s, ast.Name):
+            raise Untranslatable("%s: a name is expected, found %s" % (path, ast.unparse(s)[:60] if isinstance(s, ast.AST) else s))
+        return                                  # any name: used only where the statement merely reads the tracked objects
     if isinstance(t, ast.Name) and t.id.startswith("L_"):
         if not isinstance(s, ast.Name):
             raise Untranslatable("%s: a local name is expected (%s), found %s" % (path, t.id, ast.unparse(s)[:60] if isinstance(s, ast.AST) else s))
@@ -592,9 +597,9 @@ self.DD = DD
 trdata = numpy.zeros((DD.shape[0], DD.shape[1], DD.shape[2]), dtype=REAL)
 trdata[:, :, :] = DD[:, :, :]
 self.TrDMOp = TransitionDipoleMoment(data=trdata)
-for L_a in range(Ntot):
-    for L_b in range(Ntot):
-        dd2[L_a, L_b] = numpy.dot(self.DD[L_a, L_b, :], self.DD[L_a, L_b, :])
+for W_a in range(Ntot):
+    for W_b in range(Ntot):
+        dd2[W_a, W_b] = numpy.dot(self.DD[W_a, W_b, :], self.DD[W_a, W_b, :])
 self.HamOp.set_rwa(rwa_indices)
 '''
 
